@@ -18,7 +18,7 @@ GATING_ASSUMED = ("exact/gating: every callee of QSexact_solver / QSexact_basis_
 
 EXACT = ["QSV_GMP_EXACT", "QSV_NARROW", "QSV_INF=1024", "QSV_GETD_NONDET"]
 CHK_BOUND = "fixed dimension 2 rows x 2 structural columns (+2 logicals), integer data |v| <= 2 (bounds also +-infinity), candidate x |v| <= 4, arbitrary sparse layout incl. duplicate entries, both column orders; all loops completely unwound (unwinding assertions on); exact integer arithmetic with overflow asserted absent"
-CHK_ASSUMED = "exact checkers: mpq_QSload_basis is a nondeterministic stub; ILLlp_cache_* are the real functions of lpdata.c; GMP = EXACT pair model (values stay integral in this bound); mpq_get_d returns an ARBITRARY double (the conversion is lossy: a verdict must not depend on it)"
+CHK_ASSUMED = "exact checkers: mpq_QSload_basis is a stub that fails arbitrarily and succeeds only for a basis of the problem's size holding status codes (its contract, decided in qsb/QSload_basis); ILLlp_cache_* are the real functions of lpdata.c; GMP = EXACT pair model (values stay integral in this bound); mpq_get_d returns an ARBITRARY double (the conversion is lossy: a verdict must not depend on it)"
 
 def chk(fn, props, nr, ns, tier, timeout, vmax=2):
     bound = CHK_BOUND.replace("2 rows x 2 structural columns (+2 logicals)", "%d row(s) x %d structural column(s) (+%d logical(s))" % (nr, ns, nr)).replace("|v| <= 2", "|v| <= %d" % vmax).replace("|v| <= 4", "|v| <= %d" % (2 * vmax))
